@@ -454,6 +454,30 @@ def padCoeffs (kind : FitKind) (cc : List (Rat × Rat)) : List (Rat × Rat) :=
 def designDot (row : List Rat) (cc : List (Rat × Rat)) : Rat × Rat :=
   ((row.zip cc).foldl (fun acc q => acc + q.1 * q.2.1) 0, (row.zip cc).foldl (fun acc q => acc + q.1 * q.2.2) 0)
 
+/-- Squared residual `‖AA·cc − B‖²` of the linear system handed to LAPACK (`rows` = `AA`, `targets` = `B`). -/
+def lsqCost (rows : List (List Rat)) (targets : List (Rat × Rat)) (cc : List (Rat × Rat)) : Rat :=
+  ((rows.zip targets).map fun q =>
+    let v := designDot q.1 cc
+    (v.1 - q.2.1) * (v.1 - q.2.1) + (v.2 - q.2.2) * (v.2 - q.2.2)).sum
+
+/-- `Poly2d.fit(aa, bb)` (math.py:688-797) with its two external ingredients as parameters: `Ain`, `Ab`
+are the affines `norm_xy` returns for `aa` and for `bb` (so the normalised points are `Ain·a`,
+`Ab·b`), `lstsq` is LAPACK on the design matrix and the normalised targets.  Order of checks as in the
+code: shapes, then the number of points, then normalisation / design matrix / solve / de-normalise /
+(pad) / reshape. -/
+def fit (lstsq : List (List Rat) → List (Rat × Rat) → Option (List (Rat × Rat))) (Ain Ab : Aff)
+    (aa bb : List (Rat × Rat)) : Res Poly2d :=
+  if aa.length ≠ bb.length then .error .assertion
+  else
+    match fitKind aa.length with
+    | .error e => .error e
+    | .ok kind =>
+      let rows := aa.map fun a => designRow kind (Ain.apply a)
+      let targets := bb.map Ab.apply
+      match lstsq rows targets with
+      | none => .error .runtimeError
+      | some cc => .ok ⟨reshape kind.side (padCoeffs kind (denorm cc Ab)), Ain⟩
+
 end Poly2d
 
 end OdcGeo.C20
